@@ -164,7 +164,16 @@ class ExprMixin(EngineCore):
 
     def ev_BoolOp(self, e, st, ctx):
         is_and = isinstance(e.op, ast.And)
-        if ctx.spec or all(is_pure_expr(x) for x in e.values[1:]):
+        if ctx.spec:
+            # lazy on concrete operands so that guarded sub-terms (x.attr under `not isnone(x)`) are not evaluated
+            ts = []
+            for x in e.values:
+                t = z3.simplify(ops.truth(st, self.eval1(x, st, ctx)))
+                if (is_and and z3.is_false(t)) or (not is_and and z3.is_true(t)):
+                    return [(st, t)]
+                ts.append(t)
+            return [(st, z3.And(*ts) if is_and else z3.Or(*ts))]
+        if all(is_pure_expr(x) for x in e.values[1:]):
             # evaluate all operands; combine symbolically (only valid where the result is used as a truth value
             # or all operands are Bool; checked below)
             out = []
@@ -390,7 +399,7 @@ class ExprMixin(EngineCore):
                 if meta.kind == "exc":
                     return [(st, self.pyexc_attr(st, v, attr))]
                 raise EngineError(f"{ctx.func.key()}:{line}: object of class {ci.name} has no attribute {attr}")
-            if meta.kind in ("bytebuf", "list", "dict"):
+            if meta.kind in ("bytebuf", "list", "dict", "generator"):
                 return [(st, BoundMethod(v, f"{meta.kind}.{attr}"))]
             raise EngineError(f"{ctx.func.key()}:{line}: attribute {attr} on {meta.kind} object {meta.label}")
         if isinstance(v, ModuleVal):
